@@ -538,9 +538,59 @@ def rule_v1(ctx, min_cell_stores=5):
 # V2
 
 
-def _writes_in(nodes):
-    """(view, [index texts], kind, stored text) for writes in a stmt list."""
+def _view_aliases(scope_nodes):
+    """local name -> (view base expr, [index exprs]) for plain aliases such
+    as `cells = self._out_dict[tail]` (single assignment, no call)."""
+    cand, count = {}, {}
+    for st in scope_nodes:
+        for n in ast.walk(st):
+            if isinstance(n, ast.Assign):
+                for t in n.targets:
+                    for x in ast.walk(t):
+                        if isinstance(x, ast.Name):
+                            count[x.id] = count.get(x.id, 0) + 1
+                if len(n.targets) == 1 and isinstance(n.targets[0], ast.Name) \
+                        and isinstance(n.value, (ast.Subscript,
+                                                 ast.Attribute)):
+                    cand[n.targets[0].id] = n.value
+            elif isinstance(n, (ast.For, ast.comprehension)):
+                for x in ast.walk(n.target):
+                    if isinstance(x, ast.Name):
+                        count[x.id] = count.get(x.id, 0) + 2
+    out = {}
+    for name, val in cand.items():
+        if count.get(name) != 1:
+            continue
+        base, idx = sub_chain(val)
+        if view_of(base):
+            out[name] = (base, idx)
+    # aliases of aliases
+    for name, val in cand.items():
+        if count.get(name) == 1 and name not in out:
+            base, idx = sub_chain(val)
+            if isinstance(base, ast.Name) and base.id in out:
+                b0, i0 = out[base.id]
+                out[name] = (b0, i0 + idx)
+    return out
+
+
+def _chain(expr, aliases):
+    base, idx = sub_chain(expr)
+    if isinstance(base, ast.Name) and base.id in aliases:
+        b0, i0 = aliases[base.id]
+        return b0, i0 + idx
+    return base, idx
+
+
+def _writes_in(nodes, scope=None):
+    """(view, [index texts], kind, stored text) for writes in a stmt list;
+    local aliases of a view cell (defined anywhere in `scope`, default the
+    statements themselves) are seen through."""
     out = []
+    aliases = _view_aliases(scope if scope is not None else nodes)
+
+    def sub_chain(e):
+        return _chain(e, aliases)
     for st in nodes:
         for n in ast.walk(st):
             if isinstance(n, ast.Assign):
@@ -657,7 +707,7 @@ def rule_v2(ctx):
         raise AnalysisError("FSA.add_edges: `tail, head, label = e` not found")
     tail, head, label = loopvars
     for armname, body in arms:
-        w = _writes_in(body)
+        w = _writes_in(body, scope=f.node.body)
         byview = {}
         for x in w:
             byview.setdefault(x[0], []).append(x)
@@ -703,7 +753,7 @@ def rule_v2(ctx):
     init_ok = False
     for n in ast.walk(f.node):
         if isinstance(n, ast.If):
-            w = _writes_in(n.body)
+            w = _writes_in(n.body, scope=f.node.body)
             cells = {(x[0], tuple(x[1])) for x in w
                      if x[2] == "assign" and len(x[1]) == 2}
             if cells and {c[0] for c in cells} == {"out", "in"}:
@@ -739,7 +789,7 @@ def rule_v2(ctx):
         src = dotted(lp.iter)
         kind = "out" if "neighbors_out" in src or "_out_dict" in src else (
             "in" if "neighbors_in" in src or "_in_dict" in src else None)
-        for x in _writes_in(lp.body):
+        for x in _writes_in(lp.body, scope=f.node.body):
             if x[2] == "pop" and len(x[1]) == 1:
                 pairing.setdefault(kind, set()).add(x[0])
     want = {"out": {"in"}, "in": {"out", "graph"}}
@@ -910,10 +960,9 @@ def fresh_levels(e, env, fdefs=None):
             cenv = {}
             for p, a in zip(callee.params, e.args):
                 cenv[p] = fresh_levels(a, env, fdefs)
-            rets = [x for x in ast.walk(callee.node)
-                    if isinstance(x, ast.Return) and x.value is not None]
-            if rets:
-                return min(fresh_levels(x.value, cenv, fdefs) for x in rets)
+            vals = _function_fresh(callee.node, cenv, fdefs)
+            if vals:
+                return min(vals)
         return 0
     if isinstance(e, (ast.DictComp, ast.ListComp, ast.SetComp)):
         cenv = dict(env)
@@ -944,6 +993,97 @@ def fresh_levels(e, env, fdefs=None):
         inner = min(fresh_levels(v, env, fdefs) for v in vals)
         return INF if inner >= INF else 1 + inner
     return 0
+
+
+def _bind_loop(target, it, env, fdefs):
+    base = it
+    if isinstance(it, ast.Call) and isinstance(it.func, ast.Attribute) \
+            and it.func.attr in ("items", "values", "keys"):
+        base = it.func.value
+    fl = fresh_levels(base, env, fdefs)
+    el = INF if fl >= INF else _elem(fl)
+    if isinstance(target, ast.Tuple) and len(target.elts) == 2 \
+            and isinstance(it, ast.Call) and isinstance(it.func, ast.Attribute) \
+            and it.func.attr == "items":
+        if isinstance(target.elts[0], ast.Name):
+            env[target.elts[0].id] = INF          # keys are immutable
+        if isinstance(target.elts[1], ast.Name):
+            env[target.elts[1].id] = el
+    elif isinstance(target, ast.Name):
+        env[target.id] = el if not (
+            isinstance(it, ast.Call) and isinstance(it.func, ast.Attribute)
+            and it.func.attr == "keys") else INF
+    else:
+        for x in ast.walk(target):
+            if isinstance(x, ast.Name):
+                env[x.id] = 0
+
+
+def _function_fresh(fnode, env, fdefs):
+    """fresh levels of every returned value of a helper: locals are tracked
+    in statement order; a container local filled by element stores / append
+    has 1 + (the least fresh stored value) fresh levels."""
+    env = dict(env)
+    rets = []
+
+    def lower(name, v):
+        inner = fresh_levels(v, env, fdefs)
+        new = INF if inner >= INF else 1 + inner
+        env[name] = min(env.get(name, 0), new)
+
+    def block(body):
+        for st in body:
+            if isinstance(st, ast.Return):
+                if st.value is not None:
+                    rets.append(fresh_levels(st.value, env, fdefs))
+            elif isinstance(st, ast.Assign):
+                for t in st.targets:
+                    if isinstance(t, ast.Name):
+                        env[t.id] = fresh_levels(st.value, env, fdefs)
+                    elif isinstance(t, ast.Subscript) \
+                            and isinstance(t.value, ast.Name):
+                        lower(t.value.id, st.value)
+                    elif isinstance(t, ast.Subscript) \
+                            and isinstance(t.value, ast.Subscript) \
+                            and isinstance(t.value.value, ast.Name):
+                        # x[a][b] = v : v sits two levels down
+                        inner = fresh_levels(st.value, env, fdefs)
+                        nm = t.value.value.id
+                        env[nm] = min(env.get(nm, 0),
+                                      INF if inner >= INF else 2 + inner)
+            elif isinstance(st, ast.Expr) and isinstance(st.value, ast.Call) \
+                    and isinstance(st.value.func, ast.Attribute) \
+                    and st.value.func.attr in ("append", "add", "extend",
+                                               "update", "setdefault") \
+                    and st.value.args:
+                recv = st.value.func.value
+                depth = 1
+                while isinstance(recv, ast.Subscript):
+                    recv = recv.value
+                    depth += 1
+                if isinstance(recv, ast.Name):
+                    inner = fresh_levels(st.value.args[-1], env, fdefs)
+                    if st.value.func.attr in ("extend", "update"):
+                        inner = INF if inner >= INF else _elem(inner)
+                    env[recv.id] = min(env.get(recv.id, 0),
+                                       INF if inner >= INF else depth + inner)
+            elif isinstance(st, ast.For):
+                _bind_loop(st.target, st.iter, env, fdefs)
+                block(st.body)
+                block(st.orelse)
+            elif isinstance(st, ast.If):
+                block(st.body)
+                block(st.orelse)
+            elif isinstance(st, (ast.With, ast.Try)):
+                block(st.body)
+                for h in getattr(st, "handlers", []):
+                    block(h.body)
+                block(getattr(st, "orelse", []))
+                block(getattr(st, "finalbody", []))
+            elif isinstance(st, ast.While):
+                block(st.body)
+    block(fnode.body)
+    return rets
 
 
 def _elem(fl):
